@@ -152,7 +152,8 @@ def setup(rec, reach):
     for n in ("parse_pdb_atoms", "parse_cif_atoms", "write_cif"):
         core.wrap(parser_v2, n, rec, label=f"parser_v2.{n}")
     for n in ("parse_pdb_atoms", "parse_cif_atoms", "write_pdb", "write_cif", "_format_pdb_atom_line"):
-        reach.add(getattr(parser_v2, n), n)
+        if hasattr(parser_v2, n):  # helpers that are not part of the public interface may be refactored away
+            reach.add(getattr(parser_v2, n), n)
 
 
 def cases(shard, nshards, seed, tier):
